@@ -512,6 +512,13 @@ func (x *Exec) valEq(st *State, a, b SVal) string {
 	if (b.K == KClosure || b.K == KBound || b.K == KFn || b.K == KLoc) && a.K == KU && a.T == "nil" {
 		return "false"
 	}
+	// a freshly allocated object is different from every value that existed before
+	if a.K == KLoc && b.K == KU && st != nil && st.Zero[keyBase(a.Loc)] {
+		return "false"
+	}
+	if b.K == KLoc && a.K == KU && st != nil && st.Zero[keyBase(b.Loc)] {
+		return "false"
+	}
 	if a.K == KSlice && b.K == KU && b.T == "nil" {
 		return eq(a.Len, "0") // nil and empty slices are identified (stated abstraction)
 	}
